@@ -347,6 +347,12 @@ def r_table_writers(ctx, prog):
                     # a load through the polynomial string pointer is a load from constant data
                     if _through_load_of(t, 'of_rs_allPp'):
                         continue
+                    if g == 'of_verbosity':
+                        # trace level (OF_DEBUG build): allowed when it only controls print regions (R-VERBOSITY)
+                        from .ir import verbosity_regions_pure
+                        okv, badv, nv = verbosity_regions_pure(f)
+                        if okv:
+                            continue
                     ctx.fail('R-TABLE-WRITERS', i, 'read:' + name, 'table generator reads %s' % (g or 'non-global memory'))
             if i.op == 'call' and i.callee not in ('of_generate_gf', 'of_rs_init_mul_table', 'of_modnn', 'fprintf',
                                                    'printf', 'fflush'):
